@@ -50,7 +50,7 @@ def main():
             e = json.load(open(ev))
             ok = all(e.get(x) for x in ["demo_original_passes", "patch_applies", "build_changed", "demo_changed_fails", "suite_passes_with_change"])
         caught = e.get("checks", {}).get(pid, {}).get("caught")
-        if ok:
+        if ok and not os.path.exists(os.path.join(VERIF, "seeded", newname, "meta.json")):  # never overwrite an import (it may carry re-evaluation history)
             subprocess.run([sys.executable, os.path.join(VERIF, "tools", "seeded_import.py"), d, ev, needs_from_notes(d), newname], capture_output=True, text=True)
         res.append((newname, "confirmed" if ok else "NOT-CONFIRMED %s" % {x: e.get(x) for x in ["demo_original_passes", "patch_applies", "build_changed", "demo_changed_fails", "suite_passes_with_change"]}, caught))
     for n, st, c in res:
